@@ -145,7 +145,7 @@ def build_unit(repo, crate, fname, common_macros, prims):
     u.file = os.path.join(crate, "src", fname + ".rs")
     return u
 
-def emit_unit(u, order, exclude=(), helpers=False):
+def emit_unit(u, order, exclude=(), helpers=False, predone=()):
     """returns (lean text, translated fn names, {fn: reason} for the untranslatable ones).  Definitions are emitted in
     dependency order (a function whose callee is translated later is retried); with `helpers`, methods of the unit that are
     not listed are translated too when a listed function calls them."""
@@ -196,7 +196,7 @@ def emit_unit(u, order, exclude=(), helpers=False):
             grew = False
             for d in list(texts.values()):
                 for m in re.findall(re.escape(u.namespace) + r"\.(\w+)", d):
-                    if m not in texts and m not in skipped and m in u.methods and m not in exclude:
+                    if m not in texts and m not in skipped and m in u.methods and m not in exclude and m not in predone:
                         err = attempt(m)
                         if err is not None:
                             skipped[m] = err
@@ -212,7 +212,7 @@ def emit_unit(u, order, exclude=(), helpers=False):
             d = remaining[name]
             deps = [m for m in re.findall(re.escape(u.namespace) + r"\.(\w+)", d) if m != name]
             deps += [n for n, full in getattr(u, "extern", {}).items() if n in exclude and re.search(re.escape(full) + r"\b", d)]
-            bad = [m for m in deps if m not in done and m not in remaining]
+            bad = [m for m in deps if m not in done and m not in remaining and m not in predone]
             if bad:
                 skipped[name] = f"depends on {bad[0]}, which is not translated"
                 del remaining[name]
@@ -440,6 +440,7 @@ def generate(repo, exclude=None):
     theorems = []
     for u in units:
         theorems += xo_theorems(u, report[u.name]["translated"])
+        trait_impls(u, parts, report, theorems, exclude)
     # rand_xorshift
     try:
         u = build_unit_xorshift(repo)
@@ -448,6 +449,7 @@ def generate(repo, exclude=None):
         parts.append(text)
         report[u.name] = dict(file=u.file, translated=done, skipped=skipped, shape=u.shape, seed_len=u.seed_len)
         theorems += xorshift_theorems(u, done)
+        trait_impls(u, parts, report, theorems, exclude)
     except Exception as e:
         report["XorShiftRng"] = dict(error=repr(e))
     # rand_jitter: the pure mixing core
@@ -486,6 +488,7 @@ def generate(repo, exclude=None):
                 theorems += ths
                 # translated functions without a statement of their own (extracted helpers): unfolded by the callers' proofs
                 HELPERS[u.name] = [n for n in done if f"{u.name}.{n}" not in {t[0] for t in ths}]
+                trait_impls(u, parts, report, theorems, exclude)
         except Exception as e:
             report[crate + (":Hc128Core" if crate == "rand_hc" and "Hc128Fns" in report else "")] = dict(error=repr(e))
     # rand_core 0.9.5 (registry source) and the wrapper types built on it
@@ -530,6 +533,7 @@ def generate(repo, exclude=None):
             ths, proofs = rs2lean_rc.wrapper_theorems(u, done)
             theorems += ths
             CUSTOM_PROOFS.update(proofs)
+            trait_impls(u, parts, report, theorems, exclude)
     except Exception as e:
         report["rand_core"] = dict(report.get("rand_core") or {}, error=repr(e))
     unmodelled_impls(repo, report, {t[0] for t in theorems})
@@ -545,6 +549,57 @@ def generate(repo, exclude=None):
         out.append(f"theorem {name} : {stmt} := by" + (pr(name) if callable(pr) else f" {pr} Ext.{name}"))
     out.append("end ExtTie\nend Rngs\n")
     return "\n".join(out), report, theorems
+
+TRAIT_FNS = ("clone", "clone_from", "eq", "ne")
+
+def trait_impls(u, parts, report, theorems, exclude):
+    """hand-written `Clone` / `PartialEq` methods of unit `u` that its own order does not list: translated (with the helpers
+    they call) in a second block of the unit's namespace, and stated against what a derived impl does —
+    `clone st = st`, `clone_from st src = src`, `eq a b = decide (a = b)` (unless the unit states `eq` against the model's `beq`),
+    `ne a b = !(eq a b)`.  Property C10.  What cannot be translated stays for `unmodelled_impls`."""
+    r = report.get(u.name)
+    if not isinstance(r, dict) or "translated" not in r:
+        return
+    done = list(r["translated"])
+    extra = [n for n in TRAIT_FNS if n in getattr(u, "methods", {}) and n not in done and n not in (r.get("skipped") or {})]
+    if extra:
+        try:
+            text, done2, skipped2 = emit_unit(u, extra, dict(exclude.get(u.name, {})), helpers=True, predone=done)
+        except Exception as e:
+            text, done2, skipped2 = "", [], {n: f"translator error: {e!r}" for n in extra}
+        if done2:
+            parts.append(text)
+            r["translated"] = done + done2
+            done = r["translated"]
+        if skipped2:
+            r["trait_skipped"] = {k: v for k, v in skipped2.items() if k in TRAIT_FNS}
+    stated = {t[0] for t in theorems}
+    E = f"Ext.{u.name}"
+    defs = ", ".join(f"{E}.{n}" for n in done)
+    def script(intro, alts):
+        return intro + "\n  first\n" + "\n".join("  | bounded 400 => (" + a + "; done)" for a in alts)
+    for n in TRAIT_FNS:
+        if n not in done or f"{u.name}.{n}" in stated:
+            continue
+        sig = (getattr(u, "sigs", {}) or {}).get(n) or {}
+        if n == "clone":
+            stmt = f"∀ st, {E}.clone st = st"
+            pr = script("intro st", ["rfl", "cases st; rfl", f"cases st; simp [{defs}, rd, wr]"])
+        elif n == "clone_from":
+            stmt = f"∀ st src, {E}.clone_from st src = src"
+            pr = script("intro st src", ["rfl", "cases st; cases src; rfl", f"cases st; cases src; simp [{defs}, rd, wr]"])
+        elif n == "eq":
+            stmt = f"∀ a b, {E}.eq a b = decide (a = b)"
+            pr = script("intro a b", ["rfl", f"cases a; cases b; simp [{defs}, rd, wr]",
+                                      f"cases a; cases b; simp [{defs}, rd, wr]; first | done | simp [← beq_iff_eq] | (constructor <;> intro h <;> simp_all)"])
+        else:
+            if "eq" not in done:
+                continue
+            stmt = f"∀ a b, {E}.ne a b = !({E}.eq a b)"
+            pr = script("intro a b", ["rfl", f"simp only [{E}.ne, {E}.eq, Bool.not_and, Bool.not_or, bne, Bool.not_not]",
+                                      f"cases a; cases b; simp [{defs}, rd, wr]"])
+        theorems.append((f"{u.name}.{n}", stmt, ["C10"], "trait_" + n))
+        CUSTOM_PROOFS[f"{u.name}.{n}"] = pr
 
 def unmodelled_impls(repo, report, stated):
     """hand-written `Clone` / `PartialEq` of a type under the tie that no theorem speaks about (the source derives them, or has
@@ -574,7 +629,9 @@ def unmodelled_impls(repo, report, stated):
             for k, v in fns.items():
                 if v.body is None or f"{ty}.{k}" in stated or k in (r.get("skipped") or {}):
                     continue
-                r.setdefault("unmodelled", {})[k] = (f"hand-written impl {t} for {ty}: no model counterpart, no theorem "
+                why = (r.get("trait_skipped") or {}).get(k)
+                r.setdefault("unmodelled", {})[k] = (f"hand-written impl {t} for {ty}: " + (f"not translated ({why}) " if why else
+                                                     "no model counterpart, no theorem ") +
                                                      f"(the pinned source {'derives it' if t == 'Clone' else 'has no such impl'})")
 
 def nested_fn(fn, name, macros):
@@ -642,7 +699,7 @@ def file_consts(f, extra=None):
             consts[n] = (cty, lit_lean(v, cty))
     return consts, vals
 
-def methods_of(f, sname, skip_traits=("fmt::Debug", "Eq", "::core::cmp::Eq", "Clone")):
+def methods_of(f, sname, skip_traits=("fmt::Debug", "Eq", "::core::cmp::Eq")):
     ms, aliases = {}, {}
     for (trait, ty, fns, consts), types in zip(f.impls, f.impl_types):
         if ty != sname or trait in skip_traits:
